@@ -215,7 +215,7 @@ def run(ctx):
     full_bits, n_random = (10, 120) if ctx.quick else (14, 1000)
     spec_bad, model_bad = sweep(ctx, with_model, full_bits, n_random)
     known_checks(ctx)
-    pol_ok = pol['mid'] is not None and pol['eqw'] is not None
+    pol_ok = all(pol[k] == v for k, v in c08_blocks.HEADLINE_POLICIES.items())      # the theorems speak about these formulas only
     tie_ok = (not missing) and r['ok'] and with_model and not model_bad and pol_ok and 'model_terms_failed' not in ctx.notes
     reported = False
     for rec in spec_bad:
@@ -223,7 +223,8 @@ def run(ctx):
         ctx.violation({'what': 'the real %s disagrees with its truth table (Spec/C08.v)' % rec['block'], 'block': rec['block'], 'config': rec['config'],
                        'inputs': rec['inputs'], 'impl_outputs': rec['impl'], 'spec_outputs': rec['spec'],
                        'how': 'build the block with this configuration (py/props/c08_blocks.py), put() the inputs in port order, propagateAll(), read the outputs',
-                       'proof_status': None if r['ok'] else {'lemma': r.get('lemma'), 'file': r.get('file')}})
+                       'proof_status': ({'headline_theorems_apply': False, 'why': 'probe found width formulas %s / %s, the theorems are stated for %s' % (pol['mid'], pol['eqw'], c08_blocks.HEADLINE_POLICIES)} if not pol_ok else
+                                        None if r['ok'] else {'lemma': r.get('lemma'), 'file': r.get('file')})})
         reported = True
         break
     if not reported and not tie_ok:
@@ -241,7 +242,7 @@ def run(ctx):
             ctx.violation({'what': what, 'block': rec['block'], 'config': rec['config'], 'inputs': rec['inputs'], 'impl_outputs': rec['impl'],
                            'model_outputs': rec['model']}, found_input=False)
         else:
-            what = ('the internal widths of Xor2 / Equal follow none of the formulas the models know (mid_a, mid_max / eqw_a, eqw_max): %s' % pol['probed'] if not pol_ok else
+            what = ('the internal widths of Xor2 / Equal in /repo are not the formulas the C08 theorems are stated for (%s): probe found %s / %s: %s' % (c08_blocks.HEADLINE_POLICIES, pol['mid'], pol['eqw'], pol['probed']) if not pol_ok else
                     'translator rejected %s: %s' % (missing, {k: ctx.gen['errors'].get(k) for k in missing}) if missing else
                     'the generated primitives changed their parameter lists (models no longer apply): %s' % sig_changes if sig_changes else
                     'Model/StructLogic.v no longer builds over the regenerated primitives: %s' % mb.get('msg') if not with_model else
